@@ -286,12 +286,10 @@ fn lex_first_token_bounded() {
 }
 
 /// a run of blanks of any length is one or more Blank fields whose lengths add up to the run
-#[kani::proof]
-#[kani::unwind(605)]
-fn lex_blank_run_bounded() {
-    let bytes = [b' '; 600];
+fn blank_run_check<const N: usize>() {
+    let bytes = [b' '; N];
     let len: usize = kani::any();
-    kani::assume(len >= 1 && len <= 600);
+    kani::assume(len >= 1 && len <= N);
     let mut p = FormatParser::new(&bytes[..len]);
     let mut total = 0usize;
     let mut fields = 0usize;
@@ -309,6 +307,40 @@ fn lex_blank_run_bounded() {
     assert!(total == len);
     assert!(fields <= 3);
 }
+
+/// contract of `next()` at the start of a blank run of length R (ended by the end of the picture or by any non-blank byte):
+/// it emits Blank(min(R, 255)) and advances by exactly that much.  By induction over the calls, a run of ANY length is
+/// reproduced with the same total length (each call consumes what it reports; a remainder is again a blank run).
+fn blank_token_check<const N: usize>(run: usize) {
+    let mut bytes = [b' '; N];
+    kani::assume(run >= 1 && run < N);
+    let sentinel: u8 = kani::any();
+    kani::assume(sentinel != b' ');
+    let ends_input: bool = kani::any();
+    bytes[run] = sentinel;
+    let len = if ends_input { run } else { run + 1 };
+    let mut p = FormatParser::new(&bytes[..len]);
+    let want = if run < 255 { run } else { 255 };
+    match p.next() {
+        Some(Field::Blank(n)) => { assert!(n as usize == want); assert!(p.pos == want); }
+        _ => assert!(false),
+    }
+}
+
+#[kani::proof]
+#[kani::unwind(262)]
+fn lex_blank_token_contract_bounded() { blank_token_check::<300>(kani::any()); }
+
+/// quick tier: every run length up to 40
+#[kani::proof]
+#[kani::unwind(45)]
+fn lex_blank_token_quick_bounded() {
+    blank_token_check::<42>(kani::any());
+}
+
+#[kani::proof]
+#[kani::unwind(605)]
+fn lex_blank_run_bounded() { blank_run_check::<600>(); }
 
 /// at most 36 tokens
 #[kani::proof]
